@@ -350,7 +350,8 @@ LEVEL_TEXT = (
     "Exploration against a naive bytes.find / struct model: iter_find_needle is run on every haystack up to the length "
     "bound over two small alphabets with every short needle, every read-buffer size 1..9 (via an io proxy in the "
     "library module), several start offsets and limits, plus large random haystacks with needles planted across buffer "
-    "boundaries; iter_artifactkit_payloads is run on files with planted self-referential headers. The reported lists "
+    "boundaries, read through BytesIO and through file objects with short reads (segmented storage); "
+    "iter_artifactkit_payloads is run on files (up to 128 KiB, BytesIO and mmap, scanned twice) with planted self-referential headers. The reported lists "
     "are compared exactly (or by the subset/superset rule when a limit is given)."
 )
 LEVEL_NOTE = "Held on the enumerated small spaces and the sampled large ones; trusted base: bytes.find, struct."
